@@ -223,7 +223,11 @@ class MailboxData(MailboxDataInterface[Message]):
 
     async def update_selected(self, selected: SelectedMailbox, *,
                               wait_on: Event | None = None) -> SelectedMailbox:
-        if wait_on is not None:
+        if wait_on is not None \
+                and selected.mod_sequence == self._mod_sequences.highest:
+            # Only wait if there is nothing new yet: the or-event is armed
+            # now, so a change that landed since the last sync would not
+            # signal it.
             either_event = wait_on.or_event(self._updated)
             await either_event.wait()
         mod_sequence = selected.mod_sequence
